@@ -3,5 +3,6 @@ from . import extract
 from .core import Context
 
 def fresh(cfg='default', tier='quick'):
-    facts, dt = extract.extract('/repo', 'mini_moka', cfg)
+    import os
+    facts, dt = extract.extract(os.environ.get('VERIF_REPO', '/repo'), 'mini_moka', cfg)
     return Context(facts, tier=tier)
